@@ -327,7 +327,7 @@ package zygo
 //@ macro nkey(key Sexp) Sexp = ite(typeis(key, *SexpArray) && len(key.(*SexpArray).Val) == 1, key.(*SexpArray).Val[0], key)
 
 //@ func (*SexpHash).HashSet
-//@ requires hash != nil && hash.Map != nil
+//@ requires typeinv[SexpHash] hash != nil && hash.Map != nil
 //@ C14,C17 modifies hash.GoStructFactory, hash.NumKeys, hash.KeyOrder, elems(hash.KeyOrder), map(hash.Map), elems(hash.Map[hashOf(nkey(key))])
 //@ C14,C17 ensures rejected: r0 != nil ==> sameHeaders(hash) && sameOrder(hash)
 //@ C14 ensures counts: r0 == nil ==> (hash.NumKeys == old(hash.NumKeys) || hash.NumKeys == old(hash.NumKeys) + 1)
@@ -344,7 +344,7 @@ package zygo
 //@ C14 loop 0 invariant match: old(absent(hash, nkey(entry(key)))) ==> !found
 
 //@ func (*SexpHash).HashDelete
-//@ requires hash != nil && hash.Map != nil
+//@ requires typeinv[SexpHash] hash != nil && hash.Map != nil
 //@ C14 modifies hash.NumKeys, hash.KeyOrder, elems(hash.KeyOrder), map(hash.Map), elems(hash.Map[hashOf(key)])
 //@ C14 ensures absent-noop: old(absent(hash, key)) ==> sameHeaders(hash) && sameOrder(hash)
 //@ C14 ensures error-noop: r0 != nil ==> sameHeaders(hash) && sameOrder(hash)
@@ -790,3 +790,42 @@ package zygo
 //@ ghost terminatorQueued := false @entry
 //@ ghost terminatorQueued := true @after call AddNextStream[0]
 //@ C13 assert text-is-terminated @before call ParseTokens[0]: terminatorQueued && ((len(env.parser.lexer.next) == 1 && env.parser.lexer.stream == stream) || (len(env.parser.lexer.next) == 0 && env.parser.lexer.stream != nil))
+
+// ===========================================================================
+// C18  package members are private unless capitalised
+// ===========================================================================
+// isPublic(name): the member name (dot prefix stripped) starts with an upper-case
+// letter.  errIfPrivate is the one place that decides it (assumed: a five-line
+// function over strings and runes, outside the integer/heap subset).
+//@ spec isPublic(name string) bool = ?
+//@ spec stripDot(s string) string = ?
+//@ func stripAnyDotPrefix
+//@ assume pure
+//@ assume ensures r0 == stripDot(s)
+//@ func errIfPrivate
+//@ assume pure
+//@ assume ensures iff(r0 == nil, isPublic(stripDot(pathPart)))
+
+// The package walker: an assignment happens only to a public member; a value
+// that is not itself a package is returned from the final hop only if public;
+// the walk descends into a hash only through a public name and hands the hash
+// walker exactly the path that remains after the hop just taken.
+//@ func (*Stack).LookupSymbol
+//@ assume preserves Elems.Str
+//@ func (*Stack).nestedPathGetSet
+//@ C18 loop 0 invariant path-unchanged: forall(k, 0 <= k && k < len(dotpaths) ==> dotpaths[k] == old(dotpaths[k]))
+//@ C18 assert assign-only-public @before call mapstore[0]: isPublic(stripDot(curSym.name))
+//@ C18 assert hash-descent-only-public @before call nestedPathGetSet[0]: isPublic(stripDot(curSym.name))
+//@ C18 assert hash-walker-gets-remaining-path @before call nestedPathGetSet[0]: len(arg2) == len(dotpaths) - (i + 1) && sarr(arg2) == sarr(dotpaths) && soff(arg2) == soff(dotpaths) + (i + 1)
+//@ ghost viaHash := false @entry
+//@ ghost viaHash := true @before call nestedPathGetSet[0]
+//@ C18 ensures final-get-only-public: setVal == nil && r1 == nil && !viaHash && len(dotpaths) > 0 && !typeis(r0, *Stack) ==> let(last, old(dotpaths[len(dotpaths)-1]), isPublic(stripDot(stripDot(last))))
+
+// The hash walker hands a package found inside a hash back to the package walker
+// with exactly the remaining path.
+//@ func (*SexpHash).nestedPathGetSet
+//@ C18 assert package-walker-gets-remaining-path @before call nestedPathGetSet[0]: len(arg2) == len(dotpaths) - (i + 1) && sarr(arg2) == sarr(dotpaths) && soff(arg2) == soff(dotpaths) + (i + 1)
+
+// Every multi-part path whose head is a package goes to the package walker, with the path after the head.
+//@ func dotGetSetHelper
+//@ C18 assert package-path-after-head @before call nestedPathGetSet[0]: len(arg2) == len(path) - 1 && sarr(arg2) == sarr(path) && soff(arg2) == soff(path) + 1
